@@ -96,8 +96,8 @@ def variant(b, i):
     if i % 5 == 4 and not b['cfg'].get('bodies'):
         b['cfg'] = dict(b['cfg'], bodies='gzip')     # the origin gzips its cacheable answers itself; the clients accept gzip
     # request headers pike's cache decisions do not depend on (every client of the behaviour sends them)
-    if i % 7 in (3, 5, 6) and not b['cfg'].get('req'):
-        b['cfg'] = dict(b['cfg'], req={3: 'range', 5: 'only_if_cached', 6: 'no_cache'}[i % 7])
+    if i % 7 in (1, 3, 5, 6) and not b['cfg'].get('req'):
+        b['cfg'] = dict(b['cfg'], req={1: 'accept', 3: 'range', 5: 'only_if_cached', 6: 'no_cache'}[i % 7])
     # cacheable answers that carry an Age of their own (max-age raised by as much: the lifetime granted is the same)
     if i % 6 == 4 and not b['cfg'].get('origin_age'):
         b['cfg'] = dict(b['cfg'], origin_age=5)
